@@ -59,6 +59,10 @@ type GraphCase struct {
 	Src     int      `json:"src"`
 	Decline []int    `json:"decline,omitempty"` // DFS: vertices whose callback does not descend
 	Kind    string   `json:"kind,omitempty"`    // generator class
+	// CopyAt (k+1, 0 = never): after the first k edges the graph is replaced
+	// by its Copy() and the remaining edges are added to the copy -- the way
+	// the library itself works on call graphs.
+	CopyAt int `json:"copyAt,omitempty"`
 }
 
 // Inf is "unreachable" in reference distance matrices.
@@ -80,10 +84,17 @@ func (gc *GraphCase) Build() (*graph.Graph, []graph.Vertex) {
 		}
 		g.Add(vs[i])
 	}
-	for _, e := range gc.Edges {
-		g.AddEdgeWeighted(vs[e[0]], vs[e[1]], e[2])
+	gp := &g
+	for i, e := range gc.Edges {
+		if gc.CopyAt == i+1 {
+			gp = gp.Copy()
+		}
+		gp.AddEdgeWeighted(vs[e[0]], vs[e[1]], e[2])
 	}
-	return &g, vs
+	if gc.CopyAt == len(gc.Edges)+1 {
+		gp = gp.Copy()
+	}
+	return gp, vs
 }
 
 // Weights is the reference edge map (last weight wins).
@@ -351,6 +362,9 @@ func GenGraphCase(g G, kind string, maxN, maxW int) *GraphCase {
 		if len(gc.Edges) > 0 && g.Pct(70) {
 			gc.Src = Pick(g, gc.Edges)[0]
 		}
+	}
+	if g.Pct(15) {
+		gc.CopyAt = g.Int(1, len(gc.Edges)+1)
 	}
 	return gc
 }
